@@ -15,7 +15,7 @@ LEVEL = "model_checking"
 
 
 def run(ctx):
-    greq, gstats = lp.generated_request(ctx, every=8 if ctx.quick else 1)
+    greq, gstats = lp.generated_request(ctx, every=8 if ctx.quick else 3)
     gen, overlay, srcs, results = lp.prepare(ctx, extra_requests=[greq])
     ok = [n for n in lp.DRIVEN + ["gen"] if results[n]["rc"] == 0]
     driven = ok
